@@ -153,9 +153,9 @@ func GenTableHistory(r *vh.Rand, n int) []TOp {
 		case k < 7 && len(lv) > 0:
 			e := lv[r.Intn(len(lv))]
 			if r.Chance(1, 2) {
-				ops = append(ops, TOp{Op: "lookupboth", ID: e.UpID})
+				ops = append(ops, TOp{Op: "lookupboth", ID: e.UpID, Peer: e.UpPeer})
 			} else {
-				ops = append(ops, TOp{Op: "lookupdown", ID: e.DownID})
+				ops = append(ops, TOp{Op: "lookupdownfrom", ID: e.DownID, Peer: e.DownPeer})
 			}
 		case len(lv) > 0:
 			term(r.Intn(len(lv)))
